@@ -64,6 +64,7 @@ func (r *Req) String() string {
 type Plan struct {
 	FailAt     map[int]string // request seq -> error text (without leading '-')
 	CrashAfter int            // crash once this many requests were processed; <0 = never
+	KillAt     int            // >0: once this many requests were processed every connection is dropped, once (the server stays up)
 	Hold       bool           // withhold replies until released
 	Park       bool           // do not process requests until stepped
 	ParkFilter func(argv [][]byte) bool // with Park: only park requests it accepts (and whatever follows them on the same connection)
@@ -144,6 +145,9 @@ type Server struct {
 	inCommand       bool
 	PropagateExpire bool
 
+	// Killed counts the connection drops caused by Plan.KillAt.
+	Killed int
+
 	// MachineryErrors collects problems of the double itself (e.g. unsupported Lua);
 	// harnesses turn a non-empty list into exit 2, never into a violation.
 	MachineryErrors []string
@@ -212,7 +216,7 @@ func (h *connHandler) OnData(c *vnet.Conn, p []byte) {
 			continue
 		}
 		s.process(cs, argv)
-		if s.crashed {
+		if s.crashed || cs.closed {
 			return
 		}
 	}
@@ -317,6 +321,11 @@ func (s *Server) DropParked() {
 // KillConns drops all current connections without marking the server crashed.
 func (s *Server) KillConns() {
 	s.mu.Lock()
+	s.killConnsLocked()
+	s.mu.Unlock()
+}
+
+func (s *Server) killConnsLocked() {
 	for _, cs := range s.conns {
 		cs.inMulti = false
 		cs.queued = nil
@@ -324,7 +333,22 @@ func (s *Server) KillConns() {
 		cs.c.Kill(true)
 	}
 	s.conns = map[int]*ConnState{}
-	s.mu.Unlock()
+}
+
+// NoEffect reports, for every request after the first `from`, whether processing it left the
+// stored data untouched whatever follows (a MULTI, or a command queued inside a MULTI): a
+// server that dies right after such a request holds the same data as one that dies before it.
+func (s *Server) NoEffect(from int) []bool {
+	s.mu.Lock()
+	defer s.mu.Unlock()
+	if from > len(s.reqs) {
+		from = len(s.reqs)
+	}
+	out := make([]bool, 0, len(s.reqs)-from)
+	for _, r := range s.reqs[from:] {
+		out = append(out, r.Queued || (r.Name() == "multi" && !r.Failed))
+	}
+	return out
 }
 
 // Log returns a snapshot of the request log.
@@ -490,6 +514,12 @@ func (s *Server) process(cs *ConnState, argv [][]byte) {
 		s.crashLocked()
 		return
 	}
+	if s.plan.KillAt > 0 && len(s.reqs) >= s.plan.KillAt {
+		s.plan.KillAt = 0
+		s.Killed++
+		s.killConnsLocked()
+		return
+	}
 	r := &Req{Seq: len(s.reqs) + 1, Conn: cs.ID, Argv: argv, ExecDB: cs.DB}
 	if s.Stamp != nil {
 		r.Stamp = s.Stamp()
@@ -536,6 +566,11 @@ func (s *Server) process(cs *ConnState, argv [][]byte) {
 	}
 	if s.plan.CrashAfter >= 0 && len(s.reqs) >= s.plan.CrashAfter {
 		s.crashLocked()
+	}
+	if s.plan.KillAt > 0 && len(s.reqs) >= s.plan.KillAt && !s.crashed {
+		s.plan.KillAt = 0
+		s.Killed++
+		s.killConnsLocked()
 	}
 }
 
